@@ -75,6 +75,99 @@ fn seq_case(idx: u64, alg: Algorithm, a: &[u32], b: &[u32], threads: bool, out: 
             Err(p) => out.violation("panic", format!("{} | {}", p, ctx())),
         }
     }
+    // the same holds for a diff that runs against a REAL deadline that has already passed: every
+    // deadline check sees "expired", so the cut-short result is a function of the inputs too
+    {
+        let past = std::time::Instant::now().checked_sub(std::time::Duration::from_secs(1));
+        out.evals_add(4);
+        let first = guard(|| similar::capture_diff_slices_deadline(alg, a, b, past));
+        let again = guard(|| similar::capture_diff_slices_deadline(alg, a, b, past));
+        let third = guard(|| similar::capture_diff_slices_deadline(alg, a, b, past));
+        let other_thread = std::thread::scope(|s| s.spawn(|| guard(|| similar::capture_diff_slices_deadline(alg, a, b, past))).join().unwrap_or_else(|_| Err("thread panicked".into())));
+        match (&first, &again, &third, &other_thread) {
+            (Ok(x), Ok(y), Ok(z), Ok(w)) => {
+                out.count("expired_real_deadline_repeats");
+                if x != y || x != z {
+                    out.violation("determinism.repeated_call", format!("with a real deadline in the past, repeated calls return {} / {} / {} | {}", fmt_ops(x), fmt_ops(y), fmt_ops(z), ctx()));
+                }
+                if x != w {
+                    out.violation("determinism.across_threads", format!("with a real deadline in the past, a fresh thread returns {} instead of {} | {}", fmt_ops(w), fmt_ops(x), ctx()));
+                }
+            }
+            _ => out.violation("panic", format!("diff with an expired deadline panicked | {}", ctx())),
+        }
+    }
+    // ... nor may hook errors leave anything behind: many diffs aborted by a failing hook (at
+    // varying call indices), then the same question again, compared with a fresh thread
+    if idx % 4 == 1 && a.len() + b.len() >= 4 && a.len() + b.len() <= 600 {
+        struct FailAt(u64, u64);
+        impl similar::algorithms::DiffHook for FailAt {
+            type Error = ();
+            fn equal(&mut self, _: usize, _: usize, _: usize) -> Result<(), ()> {
+                self.0 += 1;
+                if self.0 > self.1 { Err(()) } else { Ok(()) }
+            }
+            fn delete(&mut self, _: usize, _: usize, _: usize) -> Result<(), ()> {
+                self.0 += 1;
+                if self.0 > self.1 { Err(()) } else { Ok(()) }
+            }
+            fn insert(&mut self, _: usize, _: usize, _: usize) -> Result<(), ()> {
+                self.0 += 1;
+                if self.0 > self.1 { Err(()) } else { Ok(()) }
+            }
+        }
+        let aborted = 120u64;
+        for k in 0..aborted {
+            let _ = guard(|| {
+                let mut h = FailAt(0, k % 7);
+                let _ = similar::algorithms::diff_slices(alg, &mut h, a, b);
+                let mut h2 = similar::algorithms::Compact::new(similar::algorithms::Replace::new(FailAt(0, k % 5)), a, b);
+                let _ = similar::algorithms::diff_slices(alg, &mut h2, a, b);
+            });
+        }
+        out.evals_add(2 * aborted + 1);
+        out.count_n("aborted_diffs_interleaved", 2 * aborted);
+        match guard(|| capture_diff_slices(alg, a, b)) {
+            Ok(o) => {
+                if o != base {
+                    out.violation(
+                        "determinism.depends_on_previous_calls",
+                        format!("after {} diffs on the same thread that were aborted by a failing hook, the same call returns {} instead of {} | {}", 2 * aborted, fmt_ops(&o), fmt_ops(&base), ctx()),
+                    );
+                }
+            }
+            Err(p) => out.violation("panic", format!("{} | {}", p, ctx())),
+        }
+    }
+    // ... nor may results depend on WHERE the inputs live: one buffer whose contents are replaced
+    // in place (same address, same length, different items) between calls
+    if a.len() == b.len() || idx % 3 == 0 {
+        let n = a.len().max(b.len());
+        let mut bo: Vec<u32> = Vec::with_capacity(n);
+        let mut bn: Vec<u32> = Vec::with_capacity(n);
+        // first tenant: all-unique items of the same lengths
+        bo.extend((0..a.len() as u32).map(|i| 9_000_000 + i));
+        bn.extend((0..b.len() as u32).map(|i| 9_000_000 + (b.len() as u32 - i)));
+        let _ = guard(|| capture_diff_slices(alg, &bo, &bn));
+        // second tenant at the same addresses: the real inputs
+        bo.clear();
+        bo.extend_from_slice(a);
+        bn.clear();
+        bn.extend_from_slice(b);
+        out.evals_add(2);
+        match guard(|| capture_diff_slices(alg, &bo, &bn)) {
+            Ok(o) => {
+                out.count("buffer_reuse_runs");
+                if o != base {
+                    out.violation(
+                        "determinism.depends_on_previous_calls",
+                        format!("inputs written into buffers that held OTHER items (same address and length) during an earlier diff give {} instead of {} | {}", fmt_ops(&o), fmt_ops(&base), ctx()),
+                    );
+                }
+            }
+            Err(p) => out.violation("panic", format!("{} | {}", p, ctx())),
+        }
+    }
     if alg == Algorithm::Patience {
         out.count("patience_inputs");
         if orders.len() >= 2 {
